@@ -60,8 +60,10 @@ def usable_entries(max_inputs=8):
 
 
 class Gen:
-    def __init__(self, rnd, max_width=16, names=None, exclude=()):
+    def __init__(self, rnd, max_width=16, names=None, exclude=(), reserved_names=True):
         self.rnd = rnd
+        self.reserved_names = reserved_names
+        self._used = set()
         self.max_width = max_width
         self.k = 0
         self.entries = [e for e in usable_entries() if e.name not in exclude]
@@ -72,8 +74,17 @@ class Gen:
         except ImportError:
             self.seq_entries = []
 
+    RESERVED = ['begin', 'end', 'reg', 'wire', 'input', 'output', 'module', 'assign', 'always', 'case', 'signed', 'logic', 'bit', 'int',
+                'initial', 'if', 'for', 'table', 'generate', 'do', 'var', 'time', 'event', 'real', 'integer', 'parameter', 'posedge', 'default']
+
     def fresh(self, prefix='n'):
         self.k += 1
+        if self.reserved_names and prefix in ('n', 'in', 'q') and self.rnd.random() < 0.08:
+            pool = [r for r in self.RESERVED if r not in self._used]
+            if pool:
+                n = self.rnd.choice(pool)
+                self._used.add(n)
+                return n          # a Verilog reserved word as net / port name (must be emitted with a prefix)
         return '%s%d' % (prefix, self.k)
 
     def pick_entry(self):
